@@ -66,9 +66,10 @@ static Answer x86_execute(const Inst& in) {
   }
   {   // leg 1: the validator alone
     Environment env(arch); CodeHolder code; code.init(env);
+    x86::Assembler la(&code);
     Operand_ ops[6];
     for (size_t j = 0; j < in.ops.size(); j++)
-      if (!x86forms::build_operand(in.ops[j], ops[j])) ops[j] = code.new_label();
+      if (!x86forms::build_operand(in.ops[j], ops[j])) { Label L = la.new_label(); la.bind(L); ops[j] = L; }
     BaseInst bi(id, x86forms::inst_options(in));
     if (in.k) bi.set_extra_reg(x86::k(in.k));
     r.validate = ename(InstAPI::validate(arch, bi, ops, in.ops.size(), ValidationFlags::kNone));
@@ -87,7 +88,7 @@ static void write_leg(vj::W& w, const char* k, const Leg& l) {
 // ---------------------------------------------------------------------------------------------------------------------
 // x86: representative instantiation
 // ---------------------------------------------------------------------------------------------------------------------
-struct Row { Form f; std::string ops_s, ext, why; bool apx = false; };
+struct Row { Form f; std::string ops_s, ext, why; bool apx = false, avx102 = false; };
 
 static std::vector<Row> load_rows(const char* path) {
   std::vector<Form> forms = x86forms::load_forms(path);
@@ -97,6 +98,7 @@ static std::vector<Row> load_rows(const char* path) {
     Row r; r.f = forms[i];
     r.ops_s = raw[i]["ops_s"].s(); r.ext = raw[i]["ext"].s(); r.why = raw[i]["why"].s();
     r.apx = r.ext.find("APX_F") != std::string::npos || r.why.find("APX") != std::string::npos;
+    r.avx102 = r.ext.find("AVX10_2") != std::string::npos;
     rows.push_back(r);
   }
   return rows;
@@ -143,9 +145,9 @@ static bool build_instance(const Row& row, int mode, const std::vector<char>& ki
   for (size_t j = 0; j < f.ops.size(); j++) {
     const FOp& fo = f.ops[j];
     if (fo.imp && omitImp) continue;
-    if (fo.pair) {
-      Opd o = x86forms::R("k", 0);
-      for (const Opd& p : ob.ops) if (p.t == 'r' && p.c == "k") { o.id = p.id ^ 1; break; }
+    if (fo.pair) {                                  // k, k+1: an even / odd pair
+      Opd o = x86forms::R("k", 1);
+      for (Opd& p : ob.ops) if (p.t == 'r' && p.c == "k") { p.id &= ~1; o.id = p.id | 1; break; }
       ob.ops.push_back(o); continue;
     }
     switch (kinds[j]) {
@@ -228,7 +230,7 @@ static int next_msz(int sz, bool up) {
   return 0;
 }
 
-struct Out {
+struct Sink {
   FILE* f; long n = 0;
   void put(const Row& row, const Inst& in, const char* kind, const std::string& what, const std::string& var, int inst) {
     Answer a = x86_execute(in);
@@ -245,7 +247,7 @@ struct Out {
   }
 };
 
-static void sweep_row(const Row& row, bool thorough, Out& out) {
+static void sweep_row(const Row& row, bool thorough, Sink& out) {
   const Form& f = row.f;
   size_t nops = f.ops.size();
   std::vector<std::vector<char>> alts(nops);
@@ -397,10 +399,10 @@ int main(int argc, char** argv) {
     FILE* f = fopen(argv[3], "w"); if (!f) return 3;
     bool thorough = std::string(argv[4]) == "thorough";
     int shard = argc > 6 ? atoi(argv[5]) : 0, nshards = argc > 6 ? atoi(argv[6]) : 1;
-    Out out{f};
+    Sink out{f};
     for (const Row& r : rows) {
       if (r.f.id % nshards != shard) continue;
-      if (r.apx) continue;                          // APX rows: the pinned release has no APX support at all (listed as not covered)
+      if (r.apx || r.avx102) continue;              // APX / AVX10.2 rows: the pinned release supports neither extension (listed as not covered)
       sweep_row(r, thorough, out);
     }
     fclose(f);
